@@ -12,11 +12,12 @@
     bmtree.IndexToPath/fields    [h, idx]  obs [PathLen, PathHeight, PathBits, PathMask, PathStr] of IndexToPath(h, idx)
     bmtree.IndexToPath/order     [h, i, j] obs sign of comparing IndexToPath(h, i) with IndexToPath(h, j)
     bmtree.PathToIndexLoose/full [h, node] obs [i, has, IndexToPath(h, i)] with (i, has) = PathToIndexLoose(2^(h+1)-1, NewPath(node))
-    bmtree.Height/full           [h]       obs Height(2^(h+1)-1) *)
+    bmtree.Height/full           [h]       obs Height(2^(h+1)-1)
+    bmtree.AllPaths/full         [h]       obs [AllPaths(2^(h+1)-1, 0, 1<<63), [IndexToPath(h,i) for i in 0..2^(h+1)-2]]  (h <= 14) *)
 From Coq Require Import ZArith List Bool String.
 From Low Require Import Lib.Bits Lib.BitSeq Lib.Lex Lib.Bytes Lib.Val
   Spec.Bmtree Spec.PathSpec Spec.IndexToPathSpec Spec.IndexToPathWideSpec
-  Model.BmtreePath Model.BmtreePathStr Model.BmtreeIndex Model.BmtreeIndexToPath.
+  Model.BmtreePath Model.BmtreePathStr Model.BmtreeIndex Model.BmtreeIndexToPath Model.BmtreeAllPaths.
 Import ListNotations.
 Open Scope string_scope.
 Open Scope Z_scope.
@@ -155,5 +156,30 @@ Definition op_height_full : opdef :=
        | [h] => match as_z h with Some h => VZ h | None => VBad end
        | _ => VBad end) |}.
 
+(** AllPaths on the full tree next to the list IndexToPath h 0 .. T-1: obs = [AllPaths(T, 0, 1<<63), [IndexToPath(h, i)]_i].
+    Both must be the words of the enumerated pre-order (the IndexToPath half is C05w_enumerates, the
+    AllPaths half is C04_allpaths at T = 2^(h+1)-1). *)
+Definition c05_all (h : Z) : option (list Z) :=
+  opt_all (map (fun i => IndexToPath h (Z.of_nat i)) (seq 0 (Z.to_nat (2 ^ (h + 1) - 1)))).
+
+Definition op_allpaths_full : opdef :=
+  {| op_name := "bmtree.AllPaths/full";
+     op_run := fun a => match a with
+       | [h] => match as_z h with
+           | Some h =>
+               if (0 <=? h) && (h <=? 14) then
+                 match AllPaths (2 ^ (h + 1) - 1) 0 (2 ^ 63), c05_all h with
+                 | Some l, Some l' => VL [vzs l; vzs l']
+                 | _, _ => VPanic end
+               else VBad
+           | None => VBad end
+       | _ => VBad end;
+     op_spec := fun_spec (fun a => match a with
+       | [h] => match as_z h with
+           | Some h =>
+               let l := map (enc (Z.to_nat h)) (all_nodes (Z.to_nat h)) in VL [vzs l; vzs l]
+           | None => VBad end
+       | _ => VBad end) |}.
+
 Definition ops_C05 : list opdef :=
-  [ op_index_to_path; op_inverse; op_fields; op_order; op_loose_full; op_height_full ].
+  [ op_index_to_path; op_inverse; op_fields; op_order; op_loose_full; op_height_full; op_allpaths_full ].
